@@ -386,6 +386,12 @@ def run(tier, seed):
     run_jobs(rep, _fast_worker, fjobs, timeout_s=400 if tier == "quick" else 3600)
     ijobs = [(13, 126720, "alternate"), (13, 126720, "nested"), (20, 126208, "alternate")]
     run_jobs(rep, _interleave_worker, ijobs, timeout_s=400)
+    # (R) the formats as the gateway clients receive them: the real receive loops on streams of packets (among them packets whose
+    # data bytes contain a start marker, seeded C07-i) deliver what a decoder returns for the same frames - the harness of C12, one cut per run
+    from . import c12, aio
+    c12._G.update(R=loader.load(with_io=True), tier=tier)
+    rparts = run_jobs(rep, c12._worker, [(c, "cut1") for c in aio.CLIENTS], timeout_s=600)
+    rep.count("client_receive_runs", sum(p_.get("n", 0) for p_ in rparts if p_))
     rep.count("interleaved_destination_jobs", len(ijobs))
     rep.count("single_frame_jobs", len(jobs))
     rep.count("fast_jobs", len(fjobs))
@@ -429,6 +435,9 @@ def replay_interleave(r):
 def replay(r):
     if r.get("kind") == "interleave":
         return replay_interleave(r)
+    if r.get("kind") == "delivery":
+        from . import c12
+        return c12.replay(r)
     from .plain import plain
     N = plain()
     if r["kind"] == "input":
